@@ -537,57 +537,66 @@ func ruleQ16(c *an.Ctx) {
 		return
 	}
 	n := 0
-	an.Instrs(fn, func(in ssa.Instruction) {
-		st, ok := in.(*ssa.Store)
-		if !ok {
-			return
+	hosts := []*ssa.Function{fn}
+	for _, g := range familyOf(c.P, fn, 1) {
+		if g != fn && g.Pkg == fn.Pkg {
+			hosts = append(hosts, g)
 		}
-		fa, ok := st.Addr.(*ssa.FieldAddr)
-		if !ok {
-			return
-		}
-		sT := derefStructT(fa.X.Type())
-		if sT == nil {
-			return
-		}
-		fname := sT.Field(fa.Field).Name()
-		if fname != "Comments" && fname != "scopeComments" {
-			return
-		}
-		args, isApp := an.IsBuiltinCall(st.Val, "append")
-		if !isApp || len(args) < 1 {
-			return
-		}
-		ld, ok := args[0].(*ssa.UnOp)
-		if !ok || ld.Op != token.MUL {
-			return
-		}
-		src, ok := ld.X.(*ssa.FieldAddr)
-		if !ok || derefStructT(src.X.Type()) == nil || derefStructT(src.X.Type()).Field(src.Field).Name() != fname {
-			return
-		}
-		if accessKey(src) == accessKey(fa) {
-			return // appending to its own list
-		}
-		n++
-		key := accessKey(src)
-		cleared := func(x ssa.Instruction) bool {
-			s2, ok := x.(*ssa.Store)
+	}
+	for _, fn := range hosts {
+		fn := fn
+		an.Instrs(fn, func(in ssa.Instruction) {
+			st, ok := in.(*ssa.Store)
 			if !ok {
-				return false
+				return
 			}
-			k, isC := s2.Val.(*ssa.Const)
-			if !isC || !k.IsNil() {
-				return false
+			fa, ok := st.Addr.(*ssa.FieldAddr)
+			if !ok {
+				return
 			}
-			f2, ok := s2.Addr.(*ssa.FieldAddr)
-			return ok && accessKey(f2) == key
-		}
-		w := an.Query{Fn: fn, After: st, Target: func(x ssa.Instruction) bool { _, isR := x.(*ssa.Return); return isR }, Barrier: cleared}.Find()
-		c.Check("Q16", "inherited-comments-leave-the-container("+fname+")@compileComments", st.Pos(), w == nil,
-			"the container's "+fname+" are copied to its first entry but stay on the container: both nodes print them, a comment in front of `retain (` is duplicated by mro format and once more on every pass; "+c.WitnessString(w))
-	})
-	c.Floor("Q16", "hand-overs of a container's comments in compileComments", n, 2)
+			sT := derefStructT(fa.X.Type())
+			if sT == nil {
+				return
+			}
+			fname := sT.Field(fa.Field).Name()
+			if fname != "Comments" && fname != "scopeComments" {
+				return
+			}
+			args, isApp := an.IsBuiltinCall(st.Val, "append")
+			if !isApp || len(args) < 1 {
+				return
+			}
+			ld, ok := args[0].(*ssa.UnOp)
+			if !ok || ld.Op != token.MUL {
+				return
+			}
+			src, ok := ld.X.(*ssa.FieldAddr)
+			if !ok || derefStructT(src.X.Type()) == nil || derefStructT(src.X.Type()).Field(src.Field).Name() != fname {
+				return
+			}
+			if accessKey(src) == accessKey(fa) {
+				return // appending to its own list
+			}
+			n++
+			key := accessKey(src)
+			cleared := func(x ssa.Instruction) bool {
+				s2, ok := x.(*ssa.Store)
+				if !ok {
+					return false
+				}
+				k, isC := s2.Val.(*ssa.Const)
+				if !isC || !k.IsNil() {
+					return false
+				}
+				f2, ok := s2.Addr.(*ssa.FieldAddr)
+				return ok && accessKey(f2) == key
+			}
+			w := an.Query{Fn: fn, After: st, Target: func(x ssa.Instruction) bool { _, isR := x.(*ssa.Return); return isR }, Barrier: cleared}.Find()
+			c.Check("Q16", "inherited-comments-leave-the-container("+fname+")@"+an.FnName(fn), st.Pos(), w == nil,
+				"the container's "+fname+" are copied to its first entry but stay on the container: both nodes print them, a comment in front of `retain (` is duplicated by mro format and once more on every pass; "+c.WitnessString(w))
+		})
+	}
+	c.Floor("Q16", "hand-overs of a container's comments in compileComments and its helpers", n, 2)
 }
 
 // Q17 (C09): the comments of a binding list are printed even when the list is empty.  A comment
@@ -964,24 +973,34 @@ func ruleT13(c *an.Ctx) {
 		return h.Name() == "compile" || h.Name() == "compileParam"
 	}, Depth: 3}
 	n := 0
-	an.Instrs(fn, func(in ssa.Instruction) {
-		st, ok := in.(*ssa.Store)
-		if !ok {
-			return
+	// compileWildcard and the private helpers its loops were split into
+	fam := []*ssa.Function{fn}
+	for _, g := range familyOf(c.P, fn, 2) {
+		if g != fn && g.Pkg == fn.Pkg && g.Name() != "addBinding" && g.Name() != "compile" && g.Name() != "compileParam" {
+			fam = append(fam, g)
 		}
-		if _, f := an.FieldOfAddr(st.Addr); f != listF {
-			return
-		}
-		if _, isApp := an.IsBuiltinCall(st.Val, "append"); !isApp {
-			return
-		}
-		n++
-		w := an.Query{Fn: fn, Target: func(x ssa.Instruction) bool { return x == in },
-			Barrier: func(x ssa.Instruction) bool { return md.Instr(x, 0) }}.Find()
-		c.Check("T13", fmt.Sprintf("expanded-binding-is-type-checked@(*BindStms).compileWildcard#%d", n), st.Pos(), w == nil,
-			"a binding produced by the wildcard expansion is added to the list on a path that has not compiled it (BindStm.compile / compileParam on every path of the helper): the conversion from the source's type to the parameter's type is not checked, e.g. the member of a struct taken from an array of structs (an `int[]`) is accepted for an `int` parameter; "+c.WitnessString(w))
-	})
-	c.Floor("T13", "appends of expanded bindings in compileWildcard", n, 2)
+	}
+	for _, host := range fam {
+		host := host
+		an.Instrs(host, func(in ssa.Instruction) {
+			st, ok := in.(*ssa.Store)
+			if !ok {
+				return
+			}
+			if _, f := an.FieldOfAddr(st.Addr); f != listF {
+				return
+			}
+			if _, isApp := an.IsBuiltinCall(st.Val, "append"); !isApp {
+				return
+			}
+			n++
+			w := an.Query{Fn: host, Target: func(x ssa.Instruction) bool { return x == in },
+				Barrier: func(x ssa.Instruction) bool { return md.Instr(x, 0) }}.Find()
+			c.Check("T13", fmt.Sprintf("expanded-binding-is-type-checked@%s#%d", an.FnName(host), n), st.Pos(), w == nil,
+				"a binding produced by the wildcard expansion is added to the list on a path that has not compiled it (BindStm.compile / compileParam on every path of the helper): the conversion from the source's type to the parameter's type is not checked, e.g. the member of a struct taken from an array of structs (an `int[]`) is accepted for an `int` parameter; "+c.WitnessString(w))
+		})
+	}
+	c.Floor("T13", "appends of expanded bindings in compileWildcard and its helpers", n, 1)
 }
 
 // M14 (C13): a struct's file kind only moves upward.  Whether post-processing descends into a
@@ -1408,57 +1427,147 @@ func ruleI14(c *an.Ctx) {
 		return
 	}
 	n := 0
-	for hd, body := range naturalLoops(fn) {
-		// loops over the sorted keys of an object: the body loads val[k] (a Lookup on a map)
-		var keyVals []ssa.Value
-		for b := range body {
-			for _, in := range b.Instrs {
-				if lk, ok := in.(*ssa.Lookup); ok {
-					if _, isMap := lk.X.Type().Underlying().(*types.Map); isMap {
-						keyVals = append(keyVals, lk.Index)
+	// convertToExp itself, or the helper its object arms were merged into (which calls back)
+	hosts := []*ssa.Function{fn}
+	seenHost := map[*ssa.Function]bool{fn: true}
+	an.Instrs(fn, func(in ssa.Instruction) {
+		cl := an.AsCallAny(in)
+		if cl == nil {
+			return
+		}
+		g := cl.Common().StaticCallee()
+		if g == nil || g.Blocks == nil || seenHost[g] {
+			return
+		}
+		// same package, instances of generic functions included (their Pkg is nil)
+		pk := g.Pkg
+		if pk == nil && g.Origin() != nil {
+			pk = g.Origin().Pkg
+		}
+		if pk != fn.Pkg {
+			return
+		}
+		seenHost[g] = true
+		calls := false
+		an.Instrs(g, func(x ssa.Instruction) {
+			if c2 := an.AsCallAny(x); c2 != nil && c2.Common().StaticCallee() == fn {
+				calls = true
+			}
+		})
+		if calls {
+			hosts = append(hosts, g)
+		}
+	})
+	for _, host := range hosts {
+		for hd, body := range naturalLoops(host) {
+			// loops over the sorted keys of an object: the body loads val[k] (a Lookup on a map)
+			var keyVals []ssa.Value
+			for b := range body {
+				for _, in := range b.Instrs {
+					if lk, ok := in.(*ssa.Lookup); ok {
+						if _, isMap := lk.X.Type().Underlying().(*types.Map); isMap {
+							keyVals = append(keyVals, lk.Index)
+						}
 					}
 				}
 			}
-		}
-		if len(keyVals) == 0 {
-			continue
-		}
-		for b := range body {
-			for _, in := range b.Instrs {
-				cl, ok := in.(*ssa.Call)
-				if !ok || cl.Call.StaticCallee() != fn || tIdx >= len(cl.Call.Args) {
-					continue
-				}
-				n++
-				// does the type argument depend on a key of this loop?
-				dep := false
-				seen := map[ssa.Value]bool{}
-				var rec func(v ssa.Value, d int)
-				rec = func(v ssa.Value, d int) {
-					if v == nil || seen[v] || d > 8 || dep {
-						return
+			if len(keyVals) == 0 {
+				continue
+			}
+			for b := range body {
+				for _, in := range b.Instrs {
+					cl, ok := in.(*ssa.Call)
+					if !ok || cl.Call.StaticCallee() != fn || tIdx >= len(cl.Call.Args) {
+						continue
 					}
-					seen[v] = true
-					for _, k := range keyVals {
-						if v == k {
-							dep = true
+					n++
+					// does the type argument depend on a key of this loop?
+					dep := false
+					seen := map[ssa.Value]bool{}
+					var rec func(v ssa.Value, d int)
+					rec = func(v ssa.Value, d int) {
+						if v == nil || seen[v] || d > 8 || dep {
 							return
 						}
-					}
-					if i2, ok := v.(ssa.Instruction); ok && body[i2.Block()] {
-						for _, op := range i2.Operands(nil) {
-							if op != nil && *op != nil {
-								rec(*op, d+1)
+						seen[v] = true
+						for _, k := range keyVals {
+							if v == k {
+								dep = true
+								return
+							}
+						}
+						if i2, ok := v.(ssa.Instruction); ok && body[i2.Block()] {
+							for _, op := range i2.Operands(nil) {
+								if op != nil && *op != nil {
+									rec(*op, d+1)
+								}
 							}
 						}
 					}
+					rec(cl.Call.Args[tIdx], 0)
+					_ = hd
+					c.Check("I14", fmt.Sprintf("object-entries-converted-with-their-own-type@convertToExp#%d", n), cl.Pos(), dep,
+						"every entry of the object is converted with one type fixed before the loop: right for the values of a typed map, wrong for the members of a struct - a map<int> member of a struct-typed argument is written as a struct literal with unquoted keys and the recorded _invocation does not parse")
 				}
-				rec(cl.Call.Args[tIdx], 0)
-				_ = hd
-				c.Check("I14", fmt.Sprintf("object-entries-converted-with-their-own-type@convertToExp#%d", n), cl.Pos(), dep,
-					"every entry of the object is converted with one type fixed before the loop: right for the values of a typed map, wrong for the members of a struct - a map<int> member of a struct-typed argument is written as a struct literal with unquoted keys and the recorded _invocation does not parse")
 			}
 		}
 	}
-	c.Floor("I14", "recursive conversions of object entries in convertToExp", n, 2)
+	c.Floor("I14", "recursive conversions of object entries in convertToExp", n, 1)
+}
+
+// X10 (C03): a split that narrows to null for a fork resolves to that null.  SplitExp.BindingPath
+// narrows the split's value to the fork being resolved and dispatches on what it got.  If the arm
+// for a null returns the receiver's UN-narrowed value, the static fork expansion of a nested map
+// call sees the whole outer literal again - a source of unknown length - leaves a placeholder, and
+// the runtime expands it into a fork that runs the inner stage once with a null argument, although
+// nothing should run for a null element (an empty array in the same position disables the fork).
+// Rule: in SplitExp.BindingPath no return dominated by the successful assertion of the narrowed
+// value to *NullExp hands back the receiver's Value field.
+func ruleX10(c *an.Ctx) {
+	fn := c.P.Func(pkgSyntax, "(*SplitExp).BindingPath")
+	if fn == nil || len(fn.Params) == 0 {
+		c.Info("X10", "anchor((*SplitExp).BindingPath)", 0, "not found: not decided")
+		return
+	}
+	recv := fn.Params[0]
+	n := 0
+	an.Instrs(fn, func(in ssa.Instruction) {
+		r, ok := in.(*ssa.Return)
+		if !ok || len(r.Results) == 0 {
+			return
+		}
+		inNullArm, _ := an.GuardedBy(r, func(rel an.Rel) bool {
+			if rel.Op != token.ILLEGAL || !rel.Truth {
+				return false
+			}
+			ex, ok := rel.X.(*ssa.Extract)
+			if !ok || ex.Index != 1 {
+				return false
+			}
+			ta, ok := ex.Tuple.(*ssa.TypeAssert)
+			if !ok {
+				return false
+			}
+			nm, _ := derefNamed(ta.AssertedType)
+			return nm == "NullExp"
+		})
+		if !inNullArm {
+			return
+		}
+		n++
+		v := an.Strip(an.RetVal(r, 0))
+		bad := false
+		if u, ok := v.(*ssa.UnOp); ok && u.Op == token.MUL {
+			if fa, ok := u.X.(*ssa.FieldAddr); ok && an.ParamOf(fa.X) == ssa.Value(recv) || ok && fa.X == ssa.Value(recv) {
+				if st := derefStructT(fa.X.Type()); st != nil && st.Field(fa.Field).Name() == "Value" {
+					bad = true
+				}
+			}
+		}
+		c.Check("X10", fmt.Sprintf("null-narrowing-returns-the-null@(*SplitExp).BindingPath#%d", n), r.Pos(), !bad,
+			"the arm for a value that narrowed to null returns the split's un-narrowed Value: for a nested map call whose outer literal has a null element the fork expansion sees a source of unknown length, and the runtime runs one job of the inner stage with a null argument where nothing should run")
+	})
+	if n == 0 {
+		c.Info("X10", "anchor(null arm of SplitExp.BindingPath)", 0, "not found: not decided")
+	}
 }
